@@ -253,6 +253,10 @@ func (p *FloatingIPPlugin) Release(r *ReleaseRequest) error {
 		}); err != nil {
 			return fmt.Errorf("UnAssignIP nodeName %s, ip %s: %v", fip.NodeName, fip.IP.String(), err)
 		}
+		// the pod may own more ips, unassign them before their node attr is cleaned together
+		if err := p.unassignIPsOfKey(k.KeyInDB, caller); err != nil {
+			return err
+		}
 		// for tapp and sts pod, we need to clean its node attr and uid
 		if err := p.reserveIP(k.KeyInDB, k.KeyInDB, "after UnAssignIP "+caller); err != nil {
 			return err
